@@ -18,6 +18,8 @@ func runC15(c *Check, tier string) {
 	ruleR15b(c, g)
 	ruleR15c(c)
 	ruleR01b(c, "R15d")
+	// a dependency whose restore failed must not be marked as loaded (all load tasks awaited, errors returned)
+	ruleR01d(c, "R15e")
 }
 
 func modeAtom(c *Check, op string) func(a engine.Atom) bool {
@@ -152,6 +154,74 @@ func ruleR15c(c *Check) {
 			}, engine.PathQuery{})
 			if r, ok := s.Instrs[0].(*ssa.Return); ok && !definitelyNonNilReturn(ldo, r) {
 				bad = "the loop over the dependencies is left at " + c.P.InstrPos(r) + " with a value that may be nil: the remaining dependencies' outputs are never loaded although the call reports success"
+			}
+		}
+	}
+	// every iteration loads (or re-runs) the dependency; only a dependency without any output may be skipped
+	if bad == "" {
+		var work []ssa.Instruction
+		for _, l := range loadCalls {
+			work = append(work, l)
+		}
+		if ex := findExec(c, "R15c"); ex != nil {
+			for _, s := range sitesReaching(c, ldo, fnSet(ex.ExecMethod)) {
+				work = append(work, s)
+			}
+		}
+		isWork := func(in ssa.Instruction) bool {
+			for _, w := range work {
+				if in == w {
+					return true
+				}
+			}
+			return false
+		}
+		noOutputs := engine.CutEdgesWhere(func(a engine.Atom) bool {
+			arg, ok := lenArg(a.V)
+			if !ok || !(a.Op == "eq" || a.Op == "le") {
+				return false
+			}
+			k, isK := a.Other.(*ssa.Const)
+			if !isK || k.Value == nil || k.Int64() != 0 {
+				return false
+			}
+			call, _ := engine.CallOf(arg)
+			return call != nil && strings.HasSuffix(engine.CalleeName(call), "model.Target).AllOutputs")
+		})
+		// (1) every iteration looks the dependency's result up (unless it has no outputs at all)
+		tc := c.P.Func("caching", "TargetResultCache", "Load")
+		lookups := callsToFn(c, ldo, tc)
+		isLookup := func(in ssa.Instruction) bool {
+			for _, l := range lookups {
+				if in == ssa.Instruction(l) {
+					return true
+				}
+			}
+			return false
+		}
+		skipMsg := "an iteration can skip a dependency without loading or re-running it (a shortcut that is not `len(dep.AllOutputs()) == 0`): that dependency's outputs (e.g. a bin_output) are missing or stale when the dependant runs"
+		if len(lookups) == 0 || lp.IterationCanSkip(func(in ssa.Instruction) bool { return isLookup(in) || isWork(in) }, noOutputs) {
+			bad = skipMsg
+		}
+		// (2) after the lookup the iteration loads the outputs or re-runs the dependency. The merged error
+		// variable (lookup error / load error) can only be nil after the load call, so its nil edge is
+		// infeasible on paths that bypass the load.
+		errCalls := map[ssa.CallInstruction]int{}
+		for _, l := range lookups {
+			errCalls[l] = 1
+		}
+		for _, l := range loadCalls {
+			errCalls[l] = 0
+		}
+		mergedNil := engine.CutEdgesWhere(func(a engine.Atom) bool {
+			return a.Op == "nil" && engine.OriginsAllFromCall(a.V, errCalls, false)
+		})
+		toHeader := func(in ssa.Instruction) bool { return in == lp.Header.Instrs[0] }
+		for _, l := range lookups {
+			if r, _ := engine.PathExists(ldo, l, toHeader, engine.PathQuery{CutInstr: isWork, CutEdge: func(b *ssa.BasicBlock, i int) bool {
+				return mergedNil(b, i) || (lp.Body[b] && !lp.Body[b.Succs[i]])
+			}}); r {
+				bad = skipMsg
 			}
 		}
 	}
